@@ -36,11 +36,13 @@ P(s) == Parse(Toks(s))
 
 \* ---- template families (sets of index sequences)
 Pair(a, b) == <<PA, a, ONE, b, DOT>>
-PairsOf(a) == UNION { { Pair(a, b), <<LP>> \o Pair(a, b) \o <<RP>>, <<LB>> \o Pair(a, b) \o <<RB>>, <<SEL, LP>> \o Pair(a, b) \o <<RP>>,
-                        <<LC, STR, COLON>> \o Pair(a, b) \o <<RC>>, <<DLB>> \o Pair(a, b) \o <<RB>>,
-                        <<LP, PA, RP, a, LP, ONE, RP, b, LP, DOT, RP>>,                       \* redundant parentheses on every operand
-                        <<LP, PA, a, ONE, RP, b, DOT>>, <<PA, a, LP, ONE, b, DOT, RP>> }      \* both explicit groupings
-                      : b \in BinIdx }
+PairForms(a, b) == { Pair(a, b), <<LP>> \o Pair(a, b) \o <<RP>>, <<LB>> \o Pair(a, b) \o <<RB>>, <<SEL, LP>> \o Pair(a, b) \o <<RP>>,
+                     <<LC, STR, COLON>> \o Pair(a, b) \o <<RC>>, <<DLB>> \o Pair(a, b) \o <<RB>>,
+                     <<LP, PA, RP, a, LP, ONE, RP, b, LP, DOT, RP>>,                       \* redundant parentheses on every operand
+                     <<LP, PA, a, ONE, RP, b, DOT>>, <<PA, a, LP, ONE, b, DOT, RP>> }      \* both explicit groupings
+PairsOf(a) == UNION { PairForms(a, b) : b \in BinIdx }
+\* chains of ONE operator (`x - 1 - .`): in every shard, whatever the seed
+Diagonal == UNION { PairForms(a, a) : a \in BinIdx }
 Operand(x) == { <<x>>, <<x, PA>>, <<x, LB, ONE, RB>>, <<x, DLB, ONE, RB>>, <<PA, BAR, x>>, <<x, PLUS, ONE>>, <<ONE, PLUS, x>>, <<LB, x, RB>>, <<x, LB, RB>>,
                 <<LP, x, RP, PA>>, <<x, PA, PA>>, <<PA, x>> }
 Prefix(f) == { <<f, LP, PA, RP>>, <<f, LP, PA, RP, PA>>, <<f, LP, PA, RP, LB, ONE, RB>>, <<f, LP, PA, PLUS, ONE, RP>>, <<PA, BAR, f, LP, DOT, RP>>,
@@ -65,10 +67,10 @@ SeqsFrom(pre, n) == IF n = 0 THEN {pre} ELSE {pre} \cup UNION { SeqsFrom(Append(
 
 \* ---- jobs: one state per job so that TLC workers share the work
 Jobs == [k : {"pair"}, i : {i \in BinIdx : i % NShards = Shard}] \cup [k : {"operand"}, i : NulIdx] \cup [k : {"prefix"}, i : PreIdx]
-        \cup [k : {"assign"}, i : AsgIdx] \cup [k : {"shapes"}, i : {0}] \cup [k : {"exh"}, i : DOMAIN Red]
+        \cup [k : {"assign"}, i : AsgIdx] \cup [k : {"shapes"}, i : {0}] \cup [k : {"diag"}, i : {0}] \cup [k : {"exh"}, i : DOMAIN Red]
         \cup (IF Deep THEN [k : {"deep"}, i : {(a - 1) * Len(Red4) + b : a \in DOMAIN Red4, b \in DOMAIN Red4}] ELSE {})
 SeqsOf(j) == CASE j.k = "pair" -> PairsOf(j.i) [] j.k = "operand" -> Operand(j.i) [] j.k = "prefix" -> Prefix(j.i)
-               [] j.k = "assign" -> Assignable(j.i) [] j.k = "shapes" -> Shapes [] j.k = "exh" -> SeqsFrom(<<Red[j.i]>>, MaxLen - 1)
+               [] j.k = "assign" -> Assignable(j.i) [] j.k = "shapes" -> Shapes [] j.k = "diag" -> Diagonal [] j.k = "exh" -> SeqsFrom(<<Red[j.i]>>, MaxLen - 1)
                \* a deep job: the two leading tokens are fixed, the rest is exhaustive
                [] j.k = "deep" -> SeqsFrom4(<<Red4[((j.i - 1) \div Len(Red4)) + 1], Red4[((j.i - 1) % Len(Red4)) + 1]>>, MaxLen - 1)
 
